@@ -77,7 +77,7 @@ func ValidFor(t *rapid.T, entry string) (b []byte, typ int, hot []int) {
 		s := smallStr(t, "str", 0)
 		return model.EncodeString(s), 0, []int{0}
 	case "data.ReadMapping", "data.NewMapping":
-		return model.MustMapping(Options(t, "map", 6).Build()), 0, []int{0, 1, 2}
+		return model.MustMapping(wireOrder(t, "map-order", Options(t, "map", 6)).Build()), 0, []int{0, 1, 2}
 	case "certificate.ReadCertificate":
 		b, hot = certBytes(t)
 		return b, 0, hot
@@ -118,10 +118,17 @@ func ValidFor(t *rapid.T, entry string) (b []byte, typ int, hot []int) {
 		n := len(ls.Dest.Encode())
 		return ls.Encode(), 0, append(identHot(), n, n+255, n+256, n+256+len(ls.SigKey), n+256+len(ls.SigKey)+1)
 	case "lease_set2.ReadLeaseSet2":
-		ls, _, _ := LS2G(t, "ls2", nil).Build()
+		spec := LS2G(t, "ls2", nil)
+		spec.Options = wireOrder(t, "ls2-opt", spec.Options)
+		ls, _, _ := spec.Build()
 		return ls.Encode(), 0, hotHeader(ls.Header, len(model.MustMapping(ls.Options)))
 	case "meta_leaseset.ReadMetaLeaseSet":
-		ls, _, _ := MetaG(t, "meta", nil).Build()
+		spec := MetaG(t, "meta", nil)
+		spec.Options = wireOrder(t, "meta-opt", spec.Options)
+		for i := range spec.Entries {
+			spec.Entries[i].Props = wireOrder(t, "meta-props", spec.Entries[i].Props)
+		}
+		ls, _, _ := spec.Build()
 		return ls.Encode(), 0, hotHeader(ls.Header, len(model.MustMapping(ls.Options)))
 	case "encrypted_leaseset.ReadEncryptedLeaseSet":
 		e, _, _ := ELSG(t, "els", nil).Build()
@@ -129,15 +136,39 @@ func ValidFor(t *rapid.T, entry string) (b []byte, typ int, hot []int) {
 		hot = []int{0, 1, n, n + 3, n + 4, n + 5, n + 6, n + 7, n + 8, n + 9}
 		return e.Encode(), 0, hot
 	case "router_address.ReadRouterAddress":
-		a := AddrG(t, "addr").Build()
+		aspec := AddrG(t, "addr")
+		aspec.Options = wireOrder(t, "addr-opt", aspec.Options)
+		a := aspec.Build()
 		n := 9 + 1 + len(a.Style)
 		return a.Encode(), 0, []int{0, 1, 8, 9, n, n + 1, n + 2}
 	case "router_info.ReadRouterInfo":
-		ri, _ := RouterInfoG(t, "ri", nil).Build()
+		rspec := RouterInfoG(t, "ri", nil)
+		rspec.Options = wireOrder(t, "ri-opt", rspec.Options)
+		for i := range rspec.Addrs {
+			rspec.Addrs[i].Options = wireOrder(t, "ri-addr-opt", rspec.Addrs[i].Options)
+		}
+		ri, _ := rspec.Build()
 		n := len(ri.Ident.Encode())
 		return ri.Encode(), 0, append(identHot(), n, n+7, n+8, n+9, n+10, n+17, n+18)
 	}
 	return rapid.SliceOfN(rapid.Byte(), 0, 64).Draw(t, "raw"), 0, nil
+}
+
+// wireOrder: the parsers accept option pairs in any order (the specification asks
+// signers to sort); one input in four carries its pairs reversed or rotated, signed
+// as such.
+func wireOrder(t *rapid.T, label string, p Pairs) Pairs {
+	if len(p) < 2 || rapid.IntRange(0, 3).Draw(t, label+"-unsorted") != 0 {
+		return p
+	}
+	out := make(Pairs, len(p))
+	for i := range p {
+		out[len(p)-1-i] = p[i]
+	}
+	if k := rapid.IntRange(0, len(p)-1).Draw(t, label+"-rot"); k > 0 {
+		out = append(append(Pairs{}, out[k:]...), out[:k]...)
+	}
+	return out
 }
 
 func hotHeader(h model.Header, optLen int) []int {
@@ -172,7 +203,7 @@ func Mutate(t *rapid.T, b []byte, hot []int) ([]byte, string) {
 		}
 		return rapid.IntRange(0, len(b)-1).Draw(t, "pos")
 	}
-	kind := rapid.SampledFrom([]string{"setbyte", "setbyte", "bitflip", "word+-", "truncate", "truncate-tail", "append", "insert", "delete", "zero-run"}).Draw(t, "mut")
+	kind := rapid.SampledFrom([]string{"setbyte", "setbyte", "bitflip", "word+-", "word=", "truncate", "truncate-tail", "append", "insert", "delete", "zero-run"}).Draw(t, "mut")
 	if len(b) == 0 {
 		kind = "append"
 	}
@@ -187,6 +218,17 @@ func Mutate(t *rapid.T, b []byte, hot []int) ([]byte, string) {
 		bit := rapid.IntRange(0, 7).Draw(t, "bit")
 		b[p] ^= 1 << bit
 		return b, fmt.Sprintf("bitflip@%d.%d", p, bit)
+	case "word=":
+		p := pos()
+		if p+1 >= len(b) {
+			p = len(b) - 2
+		}
+		if p < 0 {
+			return b, "noop"
+		}
+		v := rapid.SampledFrom([]int{0, 1, 0xff, 0x100, 0x7fff, 0x8000, 0xfff0, 0xfffb, 0xfffc, 0xfffd, 0xfffe, 0xffff}).Draw(t, "wordval")
+		b[p], b[p+1] = byte(v>>8), byte(v)
+		return b, fmt.Sprintf("word@%d=%04x", p, v)
 	case "word+-":
 		p := pos()
 		if p+1 >= len(b) {
